@@ -13,11 +13,12 @@ Init == l = 1
 
 Explained(e) ==
   LET x == [op |-> e.op, a |-> e.a, b |-> e.b]
-      ideal == Observe(x, {}) IN
+      Obs(Dev) == IF e.c = 1 THEN ObserveC(x, Dev) ELSE Observe(x, Dev)     \* c = 1: compound unit sets
+      ideal == Obs({}) IN
   IF ideal.k = "undef" THEN TRUE
   ELSE IF Matches(ideal, e.obs) THEN TRUE
   ELSE \E d \in SeqToSet(e.devs) \cap AllDevs :
-         LET r == Observe(x, {d}) IN
+         LET r == Obs({d}) IN
          /\ r # ideal /\ r.k # "undef"
          /\ Matches(r, e.obs)
          /\ PrintT(<<"MSG", "KNOWN", d, e.case>>)
